@@ -291,3 +291,153 @@ class LifeCheck(object):
 
 
 register(LifeCheck())
+
+
+# --- C10 -------------------------------------------------------------------------------------------------
+class RestartCheck(object):
+    world = "RESTART"
+    prop = "C10"
+    runs = (3000, 200000)
+    rule = ("phase 1 = arbitrary history cut at an arbitrary op; then PRINT_STARTED to the used plugin and to a "
+            "freshly built plugin given the same settings store and copies of the regions; phase 2 = one schedule "
+            "(program text, API, events, script hooks) applied to both: hook results, comm sends, script-hook "
+            "returns, API responses, GET payloads and notifications identical step by step")
+    rule_state = ("distinct history states at the restart: (active, excluding, enabled, retraction kind x owed, "
+                  "deferred pending, XYZ mode, units, position unknown, regions 0/1/2+)")
+
+    def generate(self, rng):
+        from .worlds.printworld import prerender
+        k = gen.knobs(rng, "C10")
+        k["nregions"] = rng.choice([1, 1, 2, 3])
+        k["retract"] = rng.choice(["e", "e", "fw"])
+        k["w"]["retract"] = 15
+        k["w"]["at_switch"] = 3
+        k["w"]["mode"] = 2
+        k["w"]["units"] = 1.5
+        k["w"]["other"] = 15
+        k["w"]["settings_change"] = 1
+        k["p_abort"] = 0.5
+        k["aim_w"] = [50, 5, 10, 35]
+        k["prints"] = rng.choice([1, 2])
+        conf = gen.rand_deferral_config(rng)
+        k["settings"] = {"extendedExcludeGcodes": conf, "exitingExcludedRegionGcode": gen.rand_script(rng, "EXIT"),
+                         "enteringExcludedRegionGcode": gen.rand_script(rng, "ENTER")}
+        if rng.random() < 0.3:
+            k["settings"]["clearRegionsAfterPrintFinishes"] = True
+        k["configured"] = [e["gcode"] for e in conf]
+        cfg, ops1, g1 = gen.gen_print_schedule(rng, "C10", k, return_gen=True)
+        # cut the history at an arbitrary point (possibly mid-print: restart without an end event), and let the
+        # bus misbehave a little before that
+        cut = rng.randrange(1, len(ops1) + 1) if rng.random() < 0.7 else len(ops1)
+        ops1 = ops1[:cut]
+        for _ in range(rng.choice([0, 0, 1, 2])):
+            pos = rng.randrange(0, len(ops1) + 1)
+            ops1.insert(pos, rng.choice([{"op": "event", "name": rng.choice(
+                ["PrintStarted", "PrintDone", "PrintCancelled", "FileSelected", "PrintPaused"])},
+                {"op": "bus", "do": rng.choice(["dup", "drop", "swap"])}, {"op": "deliver", "n": 1}]))
+        # phase 2
+        k2 = gen.knobs(rng, "C10")
+        k2["settings"] = {}
+        k2["may_shrink"] = k["may_shrink"]
+        k2["prints"] = 1
+        k2["nregions"] = 0
+        k2["w"]["retract"] = 12
+        k2["w"]["at_switch"] = 2
+        k2["w"]["other"] = 12
+        k2["w"]["script_hook"] = 1
+        k2["configured"] = k.get("configured")
+        k2["nops"] = rng.choice([5, 10, 20, 40])
+        k2["p_abort"] = 0.2
+        k2["p_end_inside"] = 0.3
+        regions = {} if cfg["settings"].get("clearRegionsAfterPrintFinishes") else g1.regions
+        _c2, ops2 = gen.gen_print_schedule(rng, "C10", k2, regions=regions, nid=g1.nid + 100)
+        ops2 = [op for op in ops2 if op["op"] != "print_start"]
+        if rng.random() < 0.2:
+            ops2 = [op for op in ops2 if op["op"] != "home"]
+        ops2 = prerender(cfg, ops2, g90e=cfg["g90e"])
+        out = []
+        for op in ops2:
+            if op["op"] == "abort":
+                out.append({"op": "event", "name": rng.choice(["PrintCancelled", "PrintFailed", "Error"])})
+            elif op["op"] in ("pause", "resume", "deliver", "clock", "logfail"):
+                continue
+            else:
+                out.append(op)
+        return cfg, ops1 + [{"op": "restart"}] + out
+
+    def execute(self, cfg, schedule):
+        from .worlds.restartworld import RestartWorld
+        w = RestartWorld(cfg)
+        v = w.run(schedule)
+        inter = "".join(_ACTOR.get(op["op"], "s") for op in schedule)
+        return {"violation": v, "digest": w.digest(), "stats": w.stats, "abs_states": w.abs_states,
+                "ncalls": w.ncalls, "sim_time": 0.0, "interleaving": hash_str(inter)}
+
+
+register(RestartCheck())
+
+
+# --- C08 -------------------------------------------------------------------------------------------------
+class TwinCheck(object):
+    world = "TWIN-PRINT"
+    prop = "C08"
+    runs = (3000, 200000)
+    rule = ("base run (mm, absolute) vs re-encoded twin under the same schedule (G20 / G91 / G92 X Y Z inserted "
+            "at an arbitrary step, or path and every region request translated by one vector): per abstract step "
+            "same forwarded/suppressed decision, same excluding flag, printer positions equal within 2e-4 mm "
+            "(minus the vector), same filament total")
+
+    def generate(self, rng):
+        k = gen.knobs(rng, "C08")
+        k["nregions"] = rng.choice([1, 1, 2, 3])
+        k["prints"] = 1
+        k["p_abort"] = 0.0
+        k["w"]["arc"] = 0
+        k["w"]["mode"] = 0
+        k["w"]["units"] = 0
+        k["w"]["g92xyz"] = 0
+        k["w"]["g92e"] = 1
+        k["w"]["pause"] = 0
+        k["aim_w"] = [45, 0, 15, 40]
+        k["axes_w"] = [55, 10, 10, 15, 10]
+        k["keep_zeros"] = False
+        k["c08"] = True
+        kind = rng.choice(["inch", "rel", "translate", "translate", "inch", "rel", "g92"])
+        cfg, ops = gen.gen_print_schedule(rng, "C08", k)
+        enc = {"kind": kind, "from": rng.randrange(0, max(1, len(ops)))}
+        if kind == "g92":
+            for l in rng.choice(["x", "y", "z", "xy", "xyz"]):
+                enc[l] = round(rng.uniform(-50, 50), 2)
+        if kind == "translate":
+            # until the first full XY move the tool sits at the home position in both runs: keep that point
+            # clearly outside every region that exists by then, in both frames
+            from .models import norm_region, depth
+            first_xy = next((i for i, op in enumerate(ops) if op["op"] == "move" and op.get("x") is not None
+                             and op.get("y") is not None), len(ops))
+            early = [norm_region(op["data"]) for op in ops[:first_xy]
+                     if op["op"] == "api" and op["cmd"] in ("addExcludeRegion", "updateExcludeRegion")
+                     and op["data"].get("type") in ("RectangularRegion", "CircularRegion")]
+            ok = False
+            for _ in range(30):
+                vec = [round(rng.uniform(-30, 30), 1), round(rng.uniform(-30, 30), 1)]
+                if all(depth(r, 0.0, 0.0) < -0.5 and depth(r, -vec[0], -vec[1]) < -0.5 for r in early):
+                    ok = True
+                    break
+            if ok:
+                enc["vec"] = vec
+                enc["from"] = first_xy
+            else:
+                enc["kind"] = "inch"
+        cfg["encoding"] = enc
+        return cfg, ops
+
+    def execute(self, cfg, schedule):
+        from .worlds.twinworld import TwinWorld
+        w = TwinWorld(cfg)
+        v = w.run(schedule)
+        inter = "".join(_ACTOR.get(op["op"], "s") for op in schedule) + cfg["encoding"]["kind"]
+        return {"violation": v, "digest": w.digest(), "stats": w.stats, "abs_states": w.abs_states,
+                "ncalls": w.ncalls, "sim_time": 0.0, "interleaving": hash_str(inter)}
+
+
+register(TwinCheck())
